@@ -25,6 +25,8 @@ Flag(e, name, ok, detail) == IF ok THEN TRUE ELSE PrintT(<<"VIOL", e.tid, e.t, n
 RECURSIVE SumSeq(_)
 SumSeq(q) == IF q = <<>> THEN 0 ELSE Head(q) + SumSeq(Tail(q))
 Rng(q) == {q[i] : i \in 1..Len(q)}
+RECURSIVE SetDone(_, _, _)      \* d with d[p] = t for the p in S (a few entries of a long sequence)
+SetDone(d, S, t) == IF S = {} THEN d ELSE LET p == CHOOSE x \in S : TRUE IN SetDone([d EXCEPT ![p] = t], S \ {p}, t)
 
 \* accumulators of one run
 A0 == [prio |-> <<>>, arr |-> <<>>, nops |-> <<>>, done |-> <<>>,        \* per pipeline: priority, arrival tick, #ops, completion tick (-1)
@@ -81,10 +83,10 @@ EndClauses(e) ==
   /\ ClassOK(e, "batch", s.pipelines_batch, LAMBDA p : a.prio[p] = "B")
   /\ Flag(e, "C06.Partition.sum", s.pipelines_all.arrival_count = s.pipelines_query.arrival_count + s.pipelines_interactive.arrival_count + s.pipelines_batch.arrival_count
                                  /\ s.pipelines_all.completion_count = s.pipelines_query.completion_count + s.pipelines_interactive.completion_count + s.pipelines_batch.completion_count, "sum")
-  \* throughput = successful containers / duration (dur in micro-seconds):  obs_micro * dur_micro = nsucc * 10^12  within 2 micro
+  \* throughput = successful containers / duration (dur in micro-seconds, itself known to one micro-second):  obs_micro * dur_micro = nsucc * 10^12  within 2 micro
   /\ Flag(e, "C06.Throughput", s.throughput[1] = "num" /\
-          ProdCmp(<<IF s.throughput[2] >= 2 THEN s.throughput[2] - 2 ELSE 0, cfg.dur>>, <<a.nsucc, 1000000, 1000000>>) <= 0 /\
-          ProdCmp(<<s.throughput[2] + 2, cfg.dur>>, <<a.nsucc, 1000000, 1000000>>) >= 0, <<s.throughput, a.nsucc, cfg.dur>>)
+          ProdCmp(<<IF s.throughput[2] >= 2 THEN s.throughput[2] - 2 ELSE 0, IF cfg.dur >= 1 THEN cfg.dur - 1 ELSE 0>>, <<a.nsucc, 1000000, 1000000>>) <= 0 /\
+          ProdCmp(<<s.throughput[2] + 2, cfg.dur + 1>>, <<a.nsucc, 1000000, 1000000>>) >= 0, <<s.throughput, a.nsucc, cfg.dur>>)
   /\ Flag(e, "C06.ContainerP99", IF a.ctimes = <<>> THEN s.p99_latency[1] = "nan"
                                  ELSE s.p99_latency[1] = "num" /\ CloseTo(s.p99_latency[2], P99x100(a.ctimes), 100, cfg.tps), <<s.p99_latency, a.ctimes>>)
   \* adjusted latency (SimulatorStats.adjusted_latency, printed by `eudoxia run`): class means weighted 10/5/1 by completions, divided by the completion rate
@@ -115,12 +117,15 @@ Step(e) ==
          /\ UNCHANGED cfg
     [] e.ev = "exec" ->
          LET res == e.obs.results
-             newly == {p \in 1..Len(a.prio) : a.done[p] < 0 /\ \A i \in 1..a.nops[p] : e.obs.ost[p][i] = "completed"}
+             \* lean recordings (thousands of pipelines) report only the pipelines whose operator states changed: <<p, states>>
+             newly == IF "ostd" \in DOMAIN e.obs
+                      THEN {d[1] : d \in {x \in Rng(e.obs.ostd) : a.done[x[1]] < 0 /\ \A i \in 1..a.nops[x[1]] : x[2][i] = "completed"}}
+                      ELSE {p \in 1..Len(a.prio) : a.done[p] < 0 /\ \A i \in 1..a.nops[p] : e.obs.ost[p][i] = "completed"}
          IN /\ Bump(RFail, Cardinality({j \in 1..Len(res) : res[j].err # ""}))
             /\ a' = [a EXCEPT !.nfail = @ + Cardinality({j \in 1..Len(res) : res[j].err # ""}),
                               !.nsucc = @ + Cardinality({j \in 1..Len(res) : res[j].err = ""}),
                               !.errs = @ \o SelectSeq([j \in 1..Len(res) |-> res[j].err], LAMBDA x : x # ""),
-                              !.done = [p \in 1..Len(a.prio) |-> IF p \in newly THEN e.t ELSE a.done[p]],
+                              !.done = SetDone(a.done, newly, e.t),
                               !.ctimes = @ \o [j \in 1..Len(res) |-> IF res[j].cid \in 1..Len(a.born) THEN e.t - a.born[res[j].cid] + 1 ELSE -1]]
             /\ UNCHANGED cfg
     [] e.ev = "end" /\ e.ok -> EndClauses(e) /\ UNCHANGED <<cfg, a>>
@@ -128,6 +133,8 @@ Step(e) ==
 Init == l = 1 /\ cfg = [mode |-> "none"] /\ a = A0 /\ \A r \in Regs : TLCSet(r, 0)
 Next == l <= Len(TraceLog) /\ Step(TraceLog[l]) /\ TLCSet(RLines, l) /\ l' = l + 1
 Spec == Init /\ [][Next]_vars
+\* the monitor is deterministic: the position in the log identifies the state (TLC then fingerprints one integer instead of the accumulators)
+Position == l
 Consumed == /\ PrintT(<<"COUNT", "runs", TLCGet(RRuns), "completed_pipelines", TLCGet(RCompleted), "empty_classes", TLCGet(REmptyClass), "runs_nothing_arrives", TLCGet(RNothing),
                         "runs_nothing_finishes", TLCGet(RNoFinish), "failures", TLCGet(RFail), "uncontended_runs", TLCGet(RUncont)>>)
             /\ PrintT(<<"SUMMARY", "viol", TLCGet(RViol), "lines", TLCGet(RLines), "traces", TLCGet(RTraces)>>)
